@@ -29,6 +29,14 @@ type Property struct {
 	Controls    []Control
 }
 
+// Import names rules of another property that are necessary conditions of this
+// one as well.
+type Import struct {
+	From  string
+	Rules []string
+	Why   string
+}
+
 // Control is a positive control: a seeded variant of one source file (analysed
 // through an in-memory overlay, never written into /repo, never executed) that
 // must make the named rule report a violation.
@@ -141,6 +149,75 @@ func runProperty(p *Property, tier, only, overlaySpec string, controlMode bool) 
 		}
 		ov = map[string][]byte{parts[0]: data}
 	}
+	c, code := analyse(p, tier, ov, overlaySpec, controlMode)
+	if c == nil {
+		return code
+	}
+	for _, im := range importTable[p.ID] {
+		q := registry[im.From]
+		if q == nil {
+			fmt.Fprintf(os.Stderr, "fireflycheck: internal error: %s imports from unknown property %s\n", p.ID, im.From)
+			return 2
+		}
+		ci, code := analyse(q, tier, ov, overlaySpec, controlMode)
+		if ci == nil {
+			return code
+		}
+		want := map[string]bool{}
+		for _, r := range im.Rules {
+			want[r] = true
+			// an imported rule that produced nothing was not evaluated (an anchor of
+			// the other property no longer resolves): fail closed
+			c.floors[r] = 1
+			if n := ci.floors[r]; n > 1 {
+				c.floors[r] = n
+			}
+		}
+		for _, o := range ci.Obls {
+			if want[o.Rule] {
+				c.Obls = append(c.Obls, o)
+				c.counts[o.Rule]++
+			}
+		}
+		c.Evals += ci.Evals
+		c.note("rule(s) %s of %s are evaluated here as well (separate complete analysis): %s", strings.Join(im.Rules, ", "), im.From, im.Why)
+	}
+	for _, a := range p.Assumptions {
+		c.assume(a)
+	}
+	if controlMode {
+		var bad []*Obligation
+		for _, o := range c.Obls {
+			if o.Status != "ok" && o.Status != "not-implemented" {
+				bad = append(bad, o)
+			}
+		}
+		for r, n := range c.floors {
+			if c.counts[r] < n {
+				bad = append(bad, &Obligation{Rule: r, Key: "vacuity-floor", Status: "violation"})
+			}
+		}
+		json.NewEncoder(os.Stdout).Encode(map[string]interface{}{"loaded": true, "bad": bad})
+		return 0
+	}
+	if only != "" {
+		for _, o := range c.Obls {
+			if o.Rule == only {
+				fmt.Printf("%s %s [%s] %s: %s\n", o.Rule, o.Key, o.Status, strings.Join(o.Where, " "), o.Detail)
+			}
+		}
+	}
+	var controls map[string]interface{}
+	if tier == "thorough" {
+		controls = runControls(p)
+	}
+	return c.finish(start, p.Explanation, p.EnumRule, controls)
+}
+
+// analyse loads the tree (with the overlay, if any), normalises it for the
+// property's anchors and runs the property's rules. A nil context means that
+// no verdict can be given; the exit code is returned with it.
+func analyse(p *Property, tier string, ov map[string][]byte, overlaySpec string, controlMode bool) (*Ctx, int) {
 	c := &Ctx{Prop: p.ID, Tier: tier, floors: map[string]int{}, counts: map[string]int{}}
 	if overlaySpec != "" {
 		parts := strings.SplitN(overlaySpec, "=", 2)
@@ -166,7 +243,7 @@ func runProperty(p *Property, tier, only, overlaySpec string, controlMode bool) 
 		return nil
 	}
 	if err := load(ov); err != nil {
-		return loadFailure(c, p, controlMode, err)
+		return nil, loadFailure(c, p, controlMode, err)
 	}
 	// Dry passes: run the rules, discarding their verdicts, only to learn which
 	// functions they anchor at. Then bring private helpers into single-call-site
@@ -202,7 +279,7 @@ func runProperty(p *Property, tier, only, overlaySpec string, controlMode bool) 
 			if err := load(merged); err != nil {
 				// the rewritten text must load whenever the original does
 				fmt.Fprintf(os.Stderr, "fireflycheck: internal error: helper duplication produced text that does not load: %v\n", err)
-				return 2
+				return nil, 2
 			}
 			// the anchors of the first load, by name (copies have new names)
 			for _, m := range []*Module{c.K, c.B} {
@@ -222,36 +299,7 @@ func runProperty(p *Property, tier, only, overlaySpec string, controlMode bool) 
 		}
 	}
 	p.Run(c)
-	for _, a := range p.Assumptions {
-		c.assume(a)
-	}
-	if controlMode {
-		var bad []*Obligation
-		for _, o := range c.Obls {
-			if o.Status != "ok" && o.Status != "not-implemented" {
-				bad = append(bad, o)
-			}
-		}
-		for r, n := range c.floors {
-			if c.counts[r] < n {
-				bad = append(bad, &Obligation{Rule: r, Key: "vacuity-floor", Status: "violation"})
-			}
-		}
-		json.NewEncoder(os.Stdout).Encode(map[string]interface{}{"loaded": true, "bad": bad})
-		return 0
-	}
-	if only != "" {
-		for _, o := range c.Obls {
-			if o.Rule == only {
-				fmt.Printf("%s %s [%s] %s: %s\n", o.Rule, o.Key, o.Status, strings.Join(o.Where, " "), o.Detail)
-			}
-		}
-	}
-	var controls map[string]interface{}
-	if tier == "thorough" {
-		controls = runControls(p)
-	}
-	return c.finish(start, p.Explanation, p.EnumRule, controls)
+	return c, 0
 }
 
 func loadFailure(c *Ctx, p *Property, controlMode bool, err error) int {
@@ -270,7 +318,18 @@ func runControls(p *Property) map[string]interface{} {
 	type result struct {
 		Name, Status, Expect, Detail string
 	}
-	results := make([]result, len(p.Controls))
+	// the property's own controls, and those of the rules it imports
+	ctls := append([]Control{}, p.Controls...)
+	for _, im := range importTable[p.ID] {
+		for _, ctl := range registry[im.From].Controls {
+			for _, r := range im.Rules {
+				if strings.HasPrefix(ctl.Expect, r) && (len(ctl.Expect) == len(r) || ctl.Expect[len(r)] == ' ') {
+					ctls = append(ctls, ctl)
+				}
+			}
+		}
+	}
+	results := make([]result, len(ctls))
 	self, _ := os.Executable()
 	tmp, err := os.MkdirTemp("", "ffc-controls-")
 	if err != nil {
@@ -279,7 +338,7 @@ func runControls(p *Property) map[string]interface{} {
 	defer os.RemoveAll(tmp)
 	sem := make(chan struct{}, 4)
 	var wg sync.WaitGroup
-	for i, ctl := range p.Controls {
+	for i, ctl := range ctls {
 		i, ctl := i, ctl
 		results[i] = result{Name: ctl.Name, Expect: ctl.Expect}
 		abs := filepath.Join(repoRoot(), ctl.File)
